@@ -1,17 +1,20 @@
 """C10 - transport capacity is conserved over any history (structural clauses)."""
 from rules import transport as T
 from rules import timing as TM
+from rules import session as S
 
 
 def run(ctx):
     ctx.rule("R-POOL-PAIR", "FD session numbers: acquired numbers label their session; every deletion returns the number", floor=10)
     ctx.rule("R-POOL-OWNER", "pool numbers are released only where an outbound session is deleted", floor=5)
     ctx.rule("R-REFUSE", "refusal is effect-free and its condition is exactly busy / exhausted", floor=5)
+    ctx.rule("R-KEY-ROLE", "the busy test and the session use the key of the pair the transfer really occupies", floor=10)
     ctx.rule("R-REARM", "every send session is eventually deleted or re-armed", floor=16)
     ctx.rule("R-WAKE", "state changes that request immediate action wake the job thread", floor=6)
     for fd in (False, True):
         L = T.Layer(ctx, fd=fd)
         T.refuse(ctx, L)
+        S.key_role(ctx, L)
         TM.rearm(ctx, L)
         TM.wake(ctx, L)
         if fd:
